@@ -81,10 +81,6 @@ func newReturnValue(index int, result interface{}, err string) (r returnValue) {
 	return
 }
 
-func (r returnValue) Index() int {
-	return r[0].(int)
-}
-
 func (r returnValue) Value(returnType []reflect.Type) ([]interface{}, error) {
 	// the tuple was sent by the provider: its shape is checked, not assumed
 	err, ok := r[2].(string)
@@ -292,8 +288,14 @@ func (c *Caller) begin(ctx context.Context) []call {
 func (c *Caller) end(ctx context.Context, results []returnValue) {
 	id := c.ID(ctx)
 	for _, rv := range results {
+		// the tuples come from the provider: one that is not an answer to
+		// anything must not cost the others of the batch their answers
+		index, ok := rv[0].(int)
+		if !ok {
+			continue
+		}
 		if r, ok := c.results.Get(id); ok {
-			if value := r.(*resultMap).GetAndDelete(rv.Index()); value != nil {
+			if value := r.(*resultMap).GetAndDelete(index); value != nil {
 				value <- rv
 			}
 		}
